@@ -583,8 +583,10 @@ def _check(machine, tier, seed, log=print):
     t0 = time.time()
     plan = machine.plan(tier)
     nproc = int(os.environ.get('VERIF_PROCS', os.cpu_count() or 4))
-    nruns = int(os.environ.get('VERIF_RUNS', plan['runs']))
-    budget = float(os.environ.get('VERIF_BUDGET_S', plan['budget_s']))
+    scale = float(os.environ.get('VERIF_SCALE', 1))
+    nruns = int(os.environ.get('VERIF_RUNS', int(plan['runs'] * scale)))
+    budget = float(os.environ.get('VERIF_BUDGET_S',
+                                  plan['budget_s'] * max(scale, 0.5)))
     log(f"[{machine.pid}] tier={tier} VERIF_SEED={seed} runs<={nruns} "
         f"budget={budget:.0f}s procs={nproc}")
     errors = []
